@@ -406,7 +406,8 @@ def write_to_block_list(
     """
     Write phase blocks for chromosome to block_list_file.
     """
-    block_ids = sorted(blocks.keys())
+    # A phased call whose PS value is missing ('.') has block id None
+    block_ids = sorted(blocks.keys(), key=lambda block_id: (block_id is None, block_id or 0))
     for block_id in block_ids:
         print(
             sample,
